@@ -15,8 +15,10 @@ R  *Resolution.*  A loader configuration is (family, policy, U, B, layout): fami
      * the same lookups are repeated with the directory enumeration permuted (``os.walk`` as seen by the loaders is
        interposed) and after a *sibling* loader instance with a different template set was used,
      * an explicit-state search runs over lookup histories: state = snapshot of every mutable container reachable from
-       the loader instance, its class and its module (today: ``_type_to_template_lookup_cache``); transitions = real
-       ``type_to_template`` calls of every class on a fresh loader on which the history of the state was replayed;
+       the loader instance, its class and its module (today: ``_type_to_template_lookup_cache``); a state is entered by
+       replaying its history on a fresh loader (the replay must show the snapshot under which the state was found);
+       transitions = real ``type_to_template`` calls of every class from that state (the containers are put back
+       between them; if a replay ever disagrees with that, every transition replays the history on a fresh loader);
        explored to the fixpoint; invariant: result == cold result,
      * plain histories (no state abstraction at all) of <= 2 earlier lookups, followed by the lookup of the class the
        (U, B) pair was enumerated for,
@@ -31,9 +33,13 @@ N  *Name protection.*  Every name of the pristine environment's filters/tests (b
    ``filter_``/``is_``/``uses_``) supplied as additional filter/test, every reserved global, every language global,
    fresh names.
 
+Every violation is executed again from its minimal recorded case in a pristine process image before it is reported.
+
 Interpretations (DESIGN C16): the resolution oracle accepts BOTH readings of "nearest" when two sources are searched
 (nearest over the union of the sets, or the documented "file system first, package as fallback"); where they differ a
-statistic is recorded.  Jinja's own default globals (``range`` ...) are not "reserved names".
+statistic is recorded.  A template named after a class beyond ``pydsdl.Any`` (``ABC.j2``) being used when no class up
+to Any has one is a statistic too (the loader serves arbitrary class hierarchies, see the pinned
+test_bfs_of_type_for_template).  Jinja's own default globals (``range`` ...) are not "reserved names".
 """
 from __future__ import annotations
 
@@ -344,14 +350,12 @@ class Stats:
     def __init__(self) -> None:
         self.c: typing.Dict[str, int] = collections.Counter()
         self.outcomes: typing.Set[tuple] = set()
-        self.nontrivial: typing.Set[int] = set()
         self.maxdepth = 0
 
     def merge(self, o: "Stats") -> None:
         self.c.update(o.c)
         self.maxdepth = max(self.maxdepth, o.maxdepth)
         self.outcomes |= o.outcomes
-        self.nontrivial |= o.nontrivial
 
 
 def _res_sig(kind: str, cfg: Cfg, history: str, **extra: typing.Any) -> dict:
@@ -459,7 +463,6 @@ def explore_config(
 ) -> None:
     """All of part R for one loader configuration."""
     classes, byname = universe()
-    cid = hash(cfg) & 0xFFFFFFFF
 
     def report(case: dict) -> None:
         found = eval_resolution_case(case)
@@ -552,7 +555,7 @@ def explore_config(
                 if h and r is not None:
                     dist = [dd for dd, n in ref_chain(d) if n + SUFFIX == str(r)]
                     if dist and dist[0] >= 1:
-                        st.nontrivial.add(hash((cid, tuple(x.__name__ for x in h), d.__name__)) & 0xFFFFFFFFFFFF)
+                        st.c["nontrivial_transitions"] += 1  # (configuration, state, class) is visited exactly once
                     st.outcomes.add(("warm", cfg[0], cfg[1], _state_size(s) - _state_size(s0), dist[0] if dist else -1))
                 if s not in seen:
                     if len(seen) >= MAX_STATES:
@@ -668,7 +671,7 @@ def parsed_objects() -> typing.List[typing.Any]:
         seen: typing.List[typing.Any] = []
 
         def add(x: typing.Any) -> None:
-            if not any(x is y for y in seen):
+            if not any(type(x) is type(y) and str(x) == str(y) for y in seen):
                 seen.append(x)
 
         for t in gen.read_types(pathlib.Path(_G["root"]) / "ns" / "c16ns"):
@@ -861,7 +864,7 @@ def eval_tests(source: str, only: typing.Optional[dict] = None, st: typing.Optio
                 st.c["test_evaluations"] += 1
                 st.outcomes.add(("test", fam, desc["value"], exp))
                 if exp:
-                    st.nontrivial.add(hash(("t", source, name, tuple(sorted(desc.items())))) & 0xFFFFFFFFFFFF)
+                    st.c["nontrivial_tests"] += 1  # (source, test, value) is enumerated exactly once
             if got != exp:
                 vk = "attribute" if "attribute" in desc["value"] or (desc["value"] in ("parsed", "mock") and isinstance(v, pydsdl.Attribute)) else "plain"
                 out.append(
@@ -982,7 +985,7 @@ def eval_name_case(case: dict, st: typing.Optional[Stats] = None) -> typing.List
         st.c["name_constructions"] += 1
         st.outcomes.add(("names", coll, variant, role, outcome))
         if outcome != "accepted":
-            st.nontrivial.add(hash(("n", lang, kind, coll, supplied)) & 0xFFFFFFFFFFFF)
+            st.c["nontrivial_names"] += 1  # (language, generator, collection, supplied name) is enumerated exactly once
     return out
 
 
@@ -1173,6 +1176,7 @@ def run(ctx: Ctx) -> int:
         longest_chain=max(len(k) for k in chains.values()),
     )
     # ---------------- vacuity guards: every shortcut the exploration is meant to reach
+    vacuous: typing.List[str] = []
     must = {
         "lookups": 10000,
         "states": c["configs"] + 1,  # more states than configurations: caches were really populated
@@ -1180,31 +1184,39 @@ def run(ctx: Ctx) -> int:
         "os_walk_interposed": 1,
         "sibling_lookups": 1,
         "plain_histories": 1,
+        "plain_depth2_targets": 1,
         "get_source_shadowing_checked": 1,
-        "user_ancestor_preferred_over_nearer_builtin": 0,
         "gen_lookups": 1000,
+        "gen_values_from_front_end": 1,
         "test_evaluations": 10000,
         "name_constructions": 1000,
     }
     for k, n in must.items():
         if c[k] < n:
-            raise HarnessError(f"vacuous exploration: {k}={c[k]} < {n}")
+            vacuous.append(f"{k}={c[k]} < {n}")
     if c["replay_not_deterministic"]:
-        raise HarnessError("loader state reached by replaying a history is not reproducible; the state search cannot be trusted")
+        vacuous.append("a loader state reached by replaying a history is not reproducible; the state search cannot be trusted")
     if total.maxdepth < 2:
-        raise HarnessError("vacuous exploration: no history of depth 2 changed the loader state")
+        vacuous.append("no history of depth 2 changed the loader state")
     need_outcomes = [("names", "filters", "", "pristine"), ("names", "tests", "is_", "pristine"), ("names", "globals", "", "reserved")]
     for pre in need_outcomes:
         if not any(o[: len(pre)] == pre and str(o[-1]).startswith("raised_RuntimeError") for o in total.outcomes):
-            raise HarnessError(f"vacuous exploration: no RuntimeError observed for {pre}")
+            vacuous.append(f"no RuntimeError observed for {pre}")
     for coll in ("filters", "tests", "globals"):
         if ("names", coll, "", "fresh", "added") not in total.outcomes:
-            if not any(v.sig.get("kind", "").startswith("fresh_") and v.sig.get("collection") == coll for v in ctx.bag.v.values()):
-                raise HarnessError(f"vacuous exploration: fresh {coll} name never added")
+            vacuous.append(f"fresh {coll} name never added")
     for fam in ("type", "attribute"):
         for exp in (True, False):
             if not any(o[0] == "test" and o[1] == fam and o[3] is exp for o in total.outcomes):
-                raise HarnessError(f"vacuous exploration: no {fam} test case with expected {exp}")
+                vacuous.append(f"no {fam} test case with expected {exp}")
+    for src in ("user", "pkg", "none"):
+        if not any(o[0] == "cold" and o[3] == src for o in total.outcomes):
+            vacuous.append(f"no cold lookup answered from '{src}'")
+    if vacuous:
+        if not ctx.bag.v:  # confirmed violations stand on their own; without any, a vacuous run must not pass
+            raise HarnessError("vacuous exploration: " + "; ".join(vacuous))
+        for m in vacuous:
+            ctx.cap("diversity guard not met (violations reported anyway): " + m)
 
     # samples: cases this run really executed, taken from the job lists
     j_deep = next((j for j in res_jobs if j[0][0] == "both" and j[0][1] == "FIND_ALL" and j[2] and j[0][2] and j[0][3]), None)
@@ -1223,7 +1235,7 @@ def run(ctx: Ctx) -> int:
         "transitions": int(c["transitions"] + c["plain_histories"]),
         "traces_validated_against_impl": int(c["transitions"] + c["plain_histories"]),
         "evaluations": int(evaluations),
-        "distinct_nontrivial": len(total.nontrivial),
+        "distinct_nontrivial": int(c["nontrivial_transitions"] + c["nontrivial_tests"] + c["nontrivial_names"]),
         "distinct_outcomes": len(total.outcomes),
         "rule": "state = (loader configuration, snapshot of all mutable containers of the loader instance/class/module); "
         "transition = one real type_to_template call on a fresh loader after replaying the state's history (BFS to the "
